@@ -28,7 +28,7 @@ def REQUIRED(tier):
     return {"apply:BM/TYPE_ADDITION": 50, "apply:BM/TYPE_CONST_OF_MULTIPLY": 20, "apply:CS/equation-flip": 20, "equation:compared": 1000,
             "equation:nontrivial:BM/TYPE_ADDITION": 20, "equation:nontrivial:BM/TYPE_CONST_OF_MULTIPLY": 10,
             "equation:nontrivial:CS/equation-flip": 10, "apply:CA/simple": 20, "apply:DF/simple": 10, "apply:RS/subtraction": 5,
-            "apply:DM/sum-on-right": 3, "apply:VM/simple": 3, "apply:MI/division-expression": 3, "apply:AG/add-left-child": 3}
+            "apply:DM/sum-on-right": 3, "apply:VM/simple": 3, "apply:MI/division-expression": 3, "apply:AG/add-left-child": 3, "chain:steps-compared": 200}
 
 
 def equations(cfg, rng, n):
@@ -56,6 +56,35 @@ def equations(cfg, rng, n):
             yield "poly", f"{a} = {rng.randint(-9, 30)}", []
 
 
+def inplace_equation_chain(rec, root, rules, rng, text, hints):
+    """Rules applied one after the other to ONE equation tree object (no clone between the
+    steps).  After every step the tree that the step hands back must still be an equation with
+    the start's solution set: a step that leaves a stale parent pointer behind lets the next
+    step cut the equation apart."""
+    import random as _r
+    from . import c09
+
+    start_sh = S.shadow(root)
+    crng = _r.Random(core.h64(("c02-chain", text)))
+    state = {"bad": False}
+
+    def on_step(cur, done):
+        rec.ev()
+        rec.arm("chain:steps-compared")
+        cur_sh = S.shadow(cur)
+        v, d = c09.compare_with_start(rec, start_sh, cur_sh, MR.EPISODE["folded"], hints, crng)
+        if v == "diff":
+            rec.violation("C02", f"chain/{done[-1][0]}/{'not-an-equation' if 'equation' in d else 'solutions'}",
+                          "after a sequence of in-place rewrites the tree handed back is no longer an equation equivalent to the start",
+                          {"start": text, "steps": list(done), "current": S.text_of(cur), "detail": d,
+                           "summary": f"in-place chain from '{text}' steps {done[-6:]}: '{S.text_of(cur)}' {d}"})
+            state["bad"] = True
+            return False
+        return True
+
+    D.inplace_chain(rec, root, rules, rng, steps=rng.randint(2, 6), on_step=on_step)
+
+
 def run(rec, cfg):
     rec.accept = {"equation"}
     MR.CHECKS.update({"equation"})
@@ -72,6 +101,8 @@ def run(rec, cfg):
             continue
         rec.arm("start:" + src)
         MR.HINTS[:] = hints
+        if rng.random() < 0.5:
+            inplace_equation_chain(rec, root, rules, rng, text, hints)
         frontier = [root]
         for depth in range(3):
             nxt = []
